@@ -377,18 +377,25 @@ func c10Prim(c *Ctx) {
 		// bulk loops: loop over ret = make([]T, n), body reads width w once and advances by w once
 		bulk := map[*Loop]bool{}
 		for _, l := range fi.Loops {
-			var mk *ssa.MakeSlice
-			// the ranged slice: len(x) call in the pre-header feeding the loop bound
+			// the number of iterations: `range make([]T, n)` (bound len(x) in the head), or a counted loop
+			// `for i := 0; i < n; i++` with n fixed before the loop
+			var count ssa.Value
 			for _, in := range l.Head.Instrs {
 				if bo, ok := in.(*ssa.BinOp); ok && bo.Op == token.LSS {
 					if cl, ok := bo.Y.(*ssa.Call); ok {
 						if bi, ok := cl.Call.Value.(*ssa.Builtin); ok && bi.Name() == "len" {
-							mk, _ = cl.Call.Args[0].(*ssa.MakeSlice)
+							if mk, ok := cl.Call.Args[0].(*ssa.MakeSlice); ok {
+								count = mk.Len
+							}
+						}
+					} else if phi, ok := bo.X.(*ssa.Phi); ok && phi.Block() == l.Head && countsUpFromZero(phi, l) {
+						if yi, isInstr := bo.Y.(ssa.Instruction); !isInstr || !l.Blocks[yi.Block()] {
+							count = bo.Y
 						}
 					}
 				}
 			}
-			if mk == nil {
+			if count == nil {
 				continue
 			}
 			reg := fi.Iteration(l)
@@ -411,8 +418,8 @@ func c10Prim(c *Ctx) {
 			}
 			// guard before the loop: remaining ≥ w·n, valid at loop entry
 			entry := l.Head.Instrs[0]
-			okG, path := pc.remValid(fn, entry, remNeed{v: mk.Len, mulW: w})
-			lenF := e.evalAt(mk.Len, mk.Block())
+			okG, path := pc.remValid(fn, entry, remNeed{v: count, mulW: w})
+			lenF := e.evalAt(count, l.Head)
 			c.Check(okG && lenF.lb >= 0, rule, fn, fmt.Sprintf("bulk-loop:w=%d", w), st,
 				fmt.Sprintf("bulk read of n×%d bytes preceded by a valid test remaining ≥ %d·n with n ≥ 0", w, w),
 				fmt.Sprintf("bulk read loop (n elements of %d bytes) is not preceded by a valid test remaining() ≥ %d·n (n %s): a length larger than the input makes binary.BigEndian read past the buffer (panic)", w, w, lenF), path)
@@ -994,4 +1001,28 @@ func c10ErrPropagated(c *Ctx) {
 				"the function "+bad+": after the failure the cursor is at the end of the input, so the caller's all-bytes-consumed test passes and a truncated or corrupt response is accepted with partly filled fields", path)
 		})
 	}
+}
+
+// countsUpFromZero: φ(0, φ+1) in the head of l — the induction variable of a loop counting 0, 1, 2, …
+func countsUpFromZero(phi *ssa.Phi, l *Loop) bool {
+	zero, step := false, false
+	for i, e := range phi.Edges {
+		pred := phi.Block().Preds[i]
+		if !l.Blocks[pred] {
+			if k, ok := dConstInt(e); ok && k == 0 {
+				zero = true
+				continue
+			}
+			return false
+		}
+		bo, ok := e.(*ssa.BinOp)
+		if !ok || bo.Op != token.ADD || bo.X != ssa.Value(phi) {
+			return false
+		}
+		if k, ok := dConstInt(bo.Y); !ok || k != 1 {
+			return false
+		}
+		step = true
+	}
+	return zero && step
 }
